@@ -712,3 +712,53 @@ def known_falsy(facts, chain):
 
 def known_truthy(facts, chain):
     return (chain, True) in facts or ("not " + chain, False) in facts
+
+
+def _fact_holds(facts, v, pol):
+    """the fact set says outright that condition v evaluates to pol (the text itself, or its `not` / `is [not] None`
+    spelling) - never through an atom that v merely implies"""
+    if (unparse(v), pol) in facts:
+        return True
+    if isinstance(v, ast.UnaryOp) and isinstance(v.op, ast.Not):
+        return _fact_holds(facts, v.operand, not pol)
+    if isinstance(v, ast.Compare) and len(v.ops) == 1 and isinstance(v.comparators[0], ast.Constant) and v.comparators[0].value is None:
+        base = unparse(v.left) + " is None"
+        if isinstance(v.ops[0], (ast.Is, ast.Eq)):
+            return (base, pol) in facts
+        if isinstance(v.ops[0], (ast.IsNot, ast.NotEq)):
+            return (base, not pol) in facts
+    return False
+
+
+def close_facts(facts):
+    """Propositional consequences of a fact set: from `not (A and B)` and `A` follows `not B`; from `A or B` and
+    `not A` follows `B` (one unknown operand at a time, to a fixed point).  Sound: only modus tollens on the atoms
+    the set already holds."""
+    facts = set(facts)
+    for _ in range(3):
+        new = set()
+        for t, pol in list(facts):
+            if (" and " in t and not pol) or (" or " in t and pol):
+                e = _DEF_CACHE.get("#" + t)
+                if e is None:
+                    try:
+                        e = ast.parse(t, mode="eval").body
+                    except SyntaxError:
+                        continue
+                    _DEF_CACHE["#" + t] = e
+                if not isinstance(e, ast.BoolOp):
+                    continue
+                is_and = isinstance(e.op, ast.And)
+                if is_and == pol:
+                    continue
+                unknown = []
+                for v in e.values:
+                    decided = _fact_holds(facts, v, is_and)
+                    if not decided:
+                        unknown.append(v)
+                if len(unknown) == 1:
+                    new |= cond_atoms(unknown[0], not is_and)
+        if new <= facts:
+            break
+        facts |= new
+    return frozenset(facts)
